@@ -228,6 +228,36 @@ static scpi_result_t handler(scpi_t * c) {
             } else logf_("\"v\":[]");
             logf_(",\"ok\":%d}", ok ? 1 : 0);
             if (!ok && s->stop && (o->mand || nerr > nerr0)) stopped = 1;
+        } else if (o->k == 'A') {
+            /* SCPI_ParamArray<kind>: one log entry per delivered element, then {"k":"pa","v":<count>,"ok":<result>} */
+            size_t cnt = 0, j, n = (size_t) o->ival;
+            scpi_bool_t ok = FALSE;
+            union { int32_t i32[4]; uint32_t u32[4]; int64_t i64[4]; uint64_t u64[4]; float f[4]; double d[4]; } *a = malloc(sizeof *a);
+            memset(a, 0, sizeof *a);
+            if (n > 4) n = 4;
+            if (!strcmp(o->kind, "i32")) ok = SCPI_ParamArrayInt32(c, a->i32, n, &cnt, SCPI_FORMAT_ASCII, o->mand);
+            else if (!strcmp(o->kind, "u32")) ok = SCPI_ParamArrayUInt32(c, a->u32, n, &cnt, SCPI_FORMAT_ASCII, o->mand);
+            else if (!strcmp(o->kind, "i64")) ok = SCPI_ParamArrayInt64(c, a->i64, n, &cnt, SCPI_FORMAT_ASCII, o->mand);
+            else if (!strcmp(o->kind, "u64")) ok = SCPI_ParamArrayUInt64(c, a->u64, n, &cnt, SCPI_FORMAT_ASCII, o->mand);
+            else if (!strcmp(o->kind, "flt")) ok = SCPI_ParamArrayFloat(c, a->f, n, &cnt, SCPI_FORMAT_ASCII, o->mand);
+            else if (!strcmp(o->kind, "dbl")) ok = SCPI_ParamArrayDouble(c, a->d, n, &cnt, SCPI_FORMAT_ASCII, o->mand);
+            for (j = 0; j < cnt && j < 4; j++) {
+                logf_("%s{\"k\":\"%s\",\"v\":", k++ ? "," : "", o->kind);
+                if (!strcmp(o->kind, "i32")) put_dec(a->i32[j]);
+                else if (!strcmp(o->kind, "u32")) put_dec(a->u32[j]);
+                else if (!strcmp(o->kind, "i64")) put_dec(a->i64[j]);
+                else if (!strcmp(o->kind, "u64")) { char t[32]; int tn = snprintf(t, sizeof t, "%llu", (unsigned long long) a->u64[j]); log_bytes(t, tn); }
+                else {
+                    double v = !strcmp(o->kind, "flt") ? (double) a->f[j] : a->d[j];
+                    if (v == (double) (long long) v && v > -1e15 && v < 1e15) put_dec((long long) v); else logf_("[]");
+                }
+                logf_(",\"ok\":1}");
+            }
+            logf_("%s{\"k\":\"pa\",\"v\":", k++ ? "," : "");
+            put_dec((long long) cnt);
+            logf_(",\"ok\":%d}", ok ? 1 : 0);
+            free(a);
+            if (!ok && s->stop) stopped = 1;
         } else if (o->k == 'x') {
             scpi_parameter_t p;
             scpi_bool_t got = SCPI_Parameter(c, &p, FALSE);
@@ -382,6 +412,7 @@ int main(int argc, char ** argv) {
                     if (a) *a++ = 0;
                     if (b) *b++ = 0;
                     if (!strcmp(tok, "p")) { o->k = 'p'; snprintf(o->kind, sizeof o->kind, "%s", a); o->mand = atoi(b); }
+                    else if (!strcmp(tok, "pa")) { char * c2 = strchr(b, ':'); *c2++ = 0; o->k = 'A'; snprintf(o->kind, sizeof o->kind, "%s", a); o->ival = atol(b); o->mand = atoi(c2); }
                     else if (!strcmp(tok, "r")) {
                         o->k = 'r'; snprintf(o->kind, sizeof o->kind, "%s", a);
                         if (!strcmp(a, "i32") || !strcmp(a, "bool")) o->ival = atol(b);
